@@ -58,9 +58,9 @@ def selected (p : Problem K) (b : Nat) : Bool :=
   | .tuple l => l.contains b
   | .dict l => l.any (·.1 == b)
 
-/-- `abs(E_a - E_b) < atol` as used by `equal_eigs` (strict) -/
+/-- `abs(E_a - E_b) <= atol` as used by `equal_eigs`: exactly the differences the diagonal solver does not divide by (`abs(dE) > atol`) -/
 def equalEigs (p : Problem K) (a b : Nat) : Bool :=
-  Scalar.absLt (p.energy a - p.energy b) p.atol
+  !Scalar.absGt (p.energy a - p.energy b) p.atol
 
 /-- equal within `atol`, inside one block -/
 def closeIn (p : Problem K) (a b : Nat) : Bool := p.blk a == p.blk b && p.equalEigs a b
